@@ -37,6 +37,8 @@ type liveSub struct {
 	cost  bool
 	boom  bool
 	timed bool
+	rich  bool // selects a union whose members hold nullable object- / union-typed fields
+	snap  bool // selects fields read snapshot-style (also below an Expensive field)
 }
 
 type history struct {
@@ -85,7 +87,7 @@ func genHistory(r *rand.Rand, g *wsclient.Gen, seed int64) *history {
 		}
 		h.Cfg.Middlewares = append(h.Cfg.Middlewares, m)
 	}
-	for _, c := range []string{"n", "s", "obj", "items", "plain", "nums", "grid", "ku", "pu", "kulist", "ulist", "slow", "exp", "boom", "kids:0", "kids:1", "pick", "mu", "mulist", "lq", "clock", "item:0", "item:1", "item:2", "item:3"} {
+	for _, c := range []string{"n", "s", "obj", "items", "plain", "nums", "grid", "ku", "pu", "kulist", "ulist", "slow", "exp", "boom", "kids:0", "kids:1", "pick", "mu", "mulist", "lq", "clock", "item:0", "item:1", "item:2", "item:3", "ru", "su", "rulist", "sulist"} {
 		if r.Intn(3) == 0 {
 			h.Cfg.Modes[c] = r.Intn(3)
 		}
@@ -119,7 +121,7 @@ func genHistory(r *rand.Rand, g *wsclient.Gen, seed int64) *history {
 		sort.Strings(ks)
 		return ks
 	}
-	forceCost, forceBoom, forceTimed := false, false, false
+	forceCost, forceBoom, forceTimed, forceRich, forceSnap := false, false, false, false, false
 	sub := func(wait bool) wsclient.Step {
 		seq++
 		tag := fmt.Sprintf("t%d", seq)
@@ -127,10 +129,12 @@ func genHistory(r *rand.Rand, g *wsclient.Gen, seed int64) *history {
 		opts := wsclient.QueryOpts{Slow: !forceCost, Boom: forceBoom || (!forceCost && r.Intn(4) == 0), Cost: cost}
 		opts.LQ = opts.Boom && r.Intn(2) == 0
 		opts.Timed = forceTimed || r.Intn(6) == 0
+		opts.Rich = forceRich || r.Intn(3) == 0
+		opts.Snap = forceSnap || r.Intn(4) == 0
 		var q string
 		var cells []string
 		var vars map[string]interface{}
-		if !forceCost && !forceBoom && !forceTimed && r.Intn(3) == 0 {
+		if !forceCost && !forceBoom && !forceTimed && !forceRich && !forceSnap && r.Intn(3) == 0 {
 			opts.Boom, opts.LQ = false, false // a re-used document must not bring a failing field into a later subscription
 			q, vars, cells = g.GenVarQuery(tag, opts)
 		} else {
@@ -143,7 +147,9 @@ func genHistory(r *rand.Rand, g *wsclient.Gen, seed int64) *history {
 			}
 		}
 		id := free[r.Intn(len(free))]
-		live[id] = &liveSub{tag: tag, cells: cells, cost: cost, boom: opts.Boom, timed: opts.Timed}
+		// (a re-used document has the selections it was generated with)
+		live[id] = &liveSub{tag: tag, cells: cells, cost: cost, boom: opts.Boom, timed: opts.Timed,
+			rich: strings.Contains(q, "boss {"), snap: strings.Contains(q, "info {")}
 		return wsclient.Step{Kind: "sub", ID: id, Tag: tag, Query: q, Vars: vars, Wait: wait, PauseUS: pause(r)}
 	}
 	n := 14 + r.Intn(26)
@@ -234,6 +240,28 @@ func genHistory(r *rand.Rand, g *wsclient.Gen, seed int64) *history {
 		case x < 38:
 			seq++
 			h.Steps = append(h.Steps, wsclient.Step{Kind: "mutate", ID: fmt.Sprintf("m%d", seq), Op: g.NextOp(prefer()), Wait: r.Intn(3) == 0, PauseUS: pause(r)})
+		case x >= 42 && x < 47: // a union switches member keeping its identity; the new member's object- / union-typed fields are null, then appear
+			have := false
+			for _, ls := range live {
+				have = have || ls.rich
+			}
+			if !have {
+				if len(live) >= 4 {
+					continue
+				}
+				forceRich = true
+				h.Steps = append(h.Steps, sub(true))
+				forceRich = false
+			}
+			h.Steps = append(h.Steps, wsclient.Step{Kind: "idle"})
+			ops, _ := g.RichSwitch()
+			for _, op := range ops {
+				// long enough for the re-run: every version is diffed against the one before
+				h.Steps = append(h.Steps, wsclient.Step{Kind: "write", Op: op, PauseUS: 1500 + h.Cfg.WriteThenReadUS + h.Cfg.MinRerunUS + r.Intn(1500)})
+			}
+		case x >= 47 && x < 50: // a mutation on its own (not inside a gate)
+			seq++
+			h.Steps = append(h.Steps, wsclient.Step{Kind: "mutate", ID: fmt.Sprintf("m%d", seq), Op: g.NextOp(prefer()), Wait: r.Intn(3) == 0, PauseUS: pause(r)})
 		case x < 42:
 			seq++
 			h.Steps = append(h.Steps, wsclient.Step{Kind: "echo", ID: fmt.Sprintf("e%d", seq), Wait: r.Intn(2) == 0, PauseUS: pause(r)})
@@ -303,13 +331,42 @@ func genHistory(r *rand.Rand, g *wsclient.Gen, seed int64) *history {
 	// the last change of a cell lands while a re-run that has already read
 	// that cell is in flight - and nothing follows that would repair a lost
 	// notification
-	if pf := prefer(); len(pf) > 0 && r.Intn(2) == 0 {
+	final := r.Intn(6)
+	if pf := prefer(); len(pf) > 0 && final < 3 {
 		c := pf[r.Intn(len(pf))]
 		if r.Intn(3) != 0 {
 			h.Cfg.Modes[c] = wsclient.ModeStrobe
 		}
 		h.Steps = append(h.Steps, wsclient.Step{Kind: "idle"},
 			wsclient.Step{Kind: "gate", Cell: c, Phase: 1, Op: g.OpOn(c), Landing: []int{g.OpOn(c)}, PauseUS: 500})
+	}
+	// ... or the last change lands between a resolver's snapshot (value,
+	// resource of that version) and the registration of that resource: the
+	// dependency is added to an already-invalidated resource. The resolver is a
+	// field func of a list element or of the object an Expensive field returned.
+	if final == 3 || final == 4 {
+		have := false
+		for _, ls := range live {
+			have = have || ls.snap
+		}
+		if !have && len(live) < 4 {
+			forceSnap = true
+			h.Steps = append(h.Steps, sub(true))
+			forceSnap = false
+			have = true
+		}
+		if have {
+			pre, c, trigger, landing := g.SnapRace()
+			// per-version resources (never Strobe); mostly one resource per read
+			h.Cfg.Modes[c] = []int{wsclient.ModeFresh, wsclient.ModeFresh, wsclient.ModeReplace}[r.Intn(3)]
+			for _, op := range pre {
+				h.Steps = append(h.Steps, wsclient.Step{Kind: "write", Op: op, PauseUS: 1500 + h.Cfg.WriteThenReadUS + h.Cfg.MinRerunUS})
+			}
+			h.Steps = append(h.Steps, wsclient.Step{Kind: "idle"},
+				wsclient.Step{Kind: "gate", Cell: c, Phase: wsclient.GatePreRegister, Op: trigger, Landing: []int{landing},
+					// Resource.Invalidate is asynchronous: let it land before the held resolver registers
+					Then: []wsclient.Step{{Kind: "pause", PauseUS: 2000 + r.Intn(3000)}}, PauseUS: 500})
+		}
 	}
 	// injections: writes landing at named points inside Rerunner.run / the
 	// subscription closure
@@ -428,8 +485,8 @@ func TestCheck(t *testing.T) {
 	log.SetOutput(io.Discard)
 	run := vlib.Start(t, "C02", "exploration")
 	defer run.Finish()
-	run.Rule("histories over one websocket connection (scripted JSONSocket) against a schemabuilder schema over a mutable store: 14-40 steps of subscribe (ids from a pool of 5, reused after unsubscribe; 1-6 fields over scalars, nullable object, keyed lists (nested), unkeyed object/scalar/nested lists, unions with and without key and a union mixing a key-less and a keyed member, union lists, a live-query field (public reactive.Cache, registers then may fail), Expensive object-valued fields reached on the same (interned) item along two paths under one response key with different sub-selections / arguments, a time-driven field on a harness-advanced logical clock whose deadline may pass between the resolver's judgement and its InvalidateAt/InvalidateAfter call (gate step), a nullable keyed object, a keyed list of BY-VALUE structs holding a slice (non-comparable sources) with an Expensive field, slow and Expensive fields - also on list elements and on the nullable object, with interned source objects so that the reactive cache can hit), " +
-		"one third of the subscriptions use a document with variables ($tag, and $k selecting which cell a field reads), whose text is re-used verbatim by later subscriptions with different variable values, subscribe with a live id, unsubscribe (live / unknown id), mutate (own id namespace), echo, direct writes, write bursts, gate steps (a resolver of an in-flight run is held after AddDependency or after reading while 1-3 further writes, optionally an unsubscribe or a mutation, land), leave/change/return/change sequences for one item (out of the keyed list or the nullable object and back), 0/1/3/5/6/7/9 pass-through middlewares registered with conn.Use (some pausing before/after next), in half of the histories a final step in which the last change of a (mostly Strobe-notified) cell lands while a re-run that has already read it is in flight, transient resolver failures on re-runs (plain error, safe error, errors wrapping context.Canceled / DeadlineExceeded of a resolver-owned context, safe error around one) followed by recovery, unsubscribe-all sent a fraction of the write-then-read delay after a write that invalidates an idle subscription (reactive.WriteThenReadDelay is 0 in half of the histories, 0.5-3 ms in the rest), plus 0-2 writes injected at named hook points; cases 1-4 are stress histories (600 rounds, thorough 4000: subscribe x4, one invalidating write and, within +-150 us, pipelined unsubscribes each followed by a same-id subscribe to another query); case 0 is a pinned history (unsubscribe during an in-flight run, id re-subscribed while the run's own asynchronous close is pending); " +
+	run.Rule("histories over one websocket connection (scripted JSONSocket) against a schemabuilder schema over a mutable store: 14-40 steps of subscribe (ids from a pool of 5, reused after unsubscribe; 1-6 fields over scalars, nullable object, keyed lists (nested), unkeyed object/scalar/nested lists, unions with and without key and a union mixing a key-less and a keyed member, union lists, a live-query field (public reactive.Cache, registers then may fail), Expensive object-valued fields reached on the same (interned) item along two paths under one response key with different sub-selections / arguments, a time-driven field on a harness-advanced logical clock whose deadline may pass between the resolver's judgement and its InvalidateAt/InvalidateAfter call (gate step), a nullable keyed object, a keyed list of BY-VALUE structs holding a slice (non-comparable sources) with an Expensive field, slow and Expensive fields - also on list elements and on the nullable object, with interned source objects so that the reactive cache can hit; in a third of the subscriptions unions (keyed, key-less, single and in lists) whose members hold nullable OBJECT- and UNION-typed fields, some shared by the members and some owned by one, with writes that switch the member while the identity stays and the new member's fields are null / appear / switch; in a quarter of them fields whose resolvers read SNAPSHOT-style (value and per-version resource first, AddDependency afterwards) at the top level, on list elements and as field funcs of the object returned by an Expensive field that itself reads nothing), " +
+		"one third of the subscriptions use a document with variables ($tag, and $k selecting which cell a field reads), whose text is re-used verbatim by later subscriptions with different variable values, subscribe with a live id, unsubscribe (live / unknown id), mutate (own id namespace), echo, direct writes, write bursts, gate steps (a resolver of an in-flight run is held after AddDependency or after reading while 1-3 further writes, optionally an unsubscribe or a mutation, land), leave/change/return/change sequences for one item (out of the keyed list or the nullable object and back), 0/1/3/5/6/7/9 pass-through middlewares registered with conn.Use (some pausing before/after next), in half of the histories a final step in which the last change of a (mostly Strobe-notified) cell lands while a re-run that has already read it is in flight, in a third a final step in which the last change of an item lands between a resolver's snapshot and its AddDependency (gate phase 2: the dependency is added to an already-invalidated resource; per-read or per-version resources), stand-alone mutations, transient resolver failures on re-runs (plain error, safe error, errors wrapping context.Canceled / DeadlineExceeded of a resolver-owned context, safe error around one) followed by recovery, unsubscribe-all sent a fraction of the write-then-read delay after a write that invalidates an idle subscription (reactive.WriteThenReadDelay is 0 in half of the histories, 0.5-3 ms in the rest), plus 0-2 writes injected at named hook points; cases 1-4 are stress histories (600 rounds, thorough 4000: subscribe x4, one invalidating write and, within +-150 us, pipelined unsubscribes each followed by a same-id subscribe to another query); case 0 is a pinned history (unsubscribe during an in-flight run, id re-subscribed while the run's own asynchronous close is pending); " +
 		"cells notify by Invalidate-and-replace, Strobe, or per-read resources (seeded per cell); seeded pacing and yield-hook perturbation. " +
 		"Non-trivial = >= 2 writes logged while a subscription execution was in flight AND >= 1 non-initial update with a structural delta (reorder / removal / object, list or null replacement). Distinct = step-kind sequence + set of non-initial delta shapes.")
 	run.Assume("store cells follow the discipline AddDependency(resource) then read; writers change the value then Invalidate/Strobe; a resource released by its last dependant is replaced (thunder releases = permanently invalidates it)")
@@ -679,6 +736,8 @@ func runCase(run *vlib.Run, agg *vlib.HitAgg, i int) {
 			}
 		case wsclient.EvLogError:
 			run.Count("rerun_errors_logged", 1)
+		case wsclient.EvGateHit:
+			run.Count(fmt.Sprintf("gate_hits_phase:%d", e.N), 1)
 		}
 	}
 	var kinds []string
@@ -709,6 +768,12 @@ func runCase(run *vlib.Run, agg *vlib.HitAgg, i int) {
 	reused := map[string]int{}
 	for _, inst := range a.Instances {
 		reused[inst.ID]++
+		if strings.Contains(inst.Query, "boss {") {
+			run.Count("subscriptions_with_rich_unions", 1)
+		}
+		if strings.Contains(inst.Query, "info {") {
+			run.Count("subscriptions_with_snapshot_reads_below_expensive", 1)
+		}
 	}
 	for _, c := range reused {
 		if c > 1 {
